@@ -192,6 +192,15 @@ func (g *Gen) enum(name string, allowEmpty bool) *Enum {
 	e := &Enum{Name: name}
 	defer func() {
 		for _, o := range e.Opts {
+			// an explicit `number` the compiler ignores (never on a name that could be the zero value:
+			// isExplicitZero looks at the number of the first option)
+			if !strings.HasSuffix(o, "UNSPECIFIED") && g.R.Chance(8) {
+				if e.OptNum == nil {
+					e.OptNum = map[string]int{}
+				}
+				e.OptNum[o] = g.R.Range(1, len(e.Opts)+2)
+				g.Stats["enum_option_number_attr"]++
+			}
 			if d := g.description(12); d != "" {
 				if e.OptDesc == nil {
 					e.OptDesc = map[string]string{}
